@@ -409,7 +409,7 @@ Proof. exact w_bool_prefix. Qed.
 Print Assumptions c10_bool_constant_boundary.
 
 (** independence of whitespace / comment / separator style still fails in one way: a line break inside a
-    declaration head is rejected (C10-F16: the grammar's '_' positions admit blanks and /* */ comments only,
+    declaration head is rejected (C10-F16: the grammar's '_' positions allow blanks and /* */ comments only,
     because a line break is also its statement terminator; not repaired) *)
 Theorem c10_separator_comment_independence_refuted :
   is_rejected (parse_idl (cat [bytes_of_string "typedef"; [10]; bytes_of_string "  i32 T"; [10]])) = true.
